@@ -28,7 +28,7 @@ THEOREMS = [
     'Pyiga.Props.C16.fastdiag_abstract', 'Pyiga.Props.C16.fastdiag_1d', 'Pyiga.Props.C16.fastdiag_2d',
 ]
 MODULES = ['Pyiga.Model.Index', 'Pyiga.Model.LinAlg', 'Pyiga.Model.Operators', 'Pyiga.Proofs.Index',
-           'Pyiga.Proofs.LinAlg', 'Pyiga.Proofs.Tprod', 'Pyiga.Proofs.Operators', 'Pyiga.Props.C16']
+           'Pyiga.Proofs.LinAlg', 'Pyiga.Proofs.Tprod', 'Pyiga.Proofs.Operators', 'Pyiga.Proofs.FastDiag', 'Pyiga.Props.C16']
 
 KINDS = ['d', 'r', 'c', 'l']   # ndarray, csr, csc, LinearOperator
 
